@@ -39,11 +39,21 @@ CHECKS = {
         text="For every scheme option the hard decision on each received point must be the label of a constellation point within d_min+1e-4 of it, and every soft output must equal c.(D1-D0)/noise_var with one positive constant c per demodulator (estimated, not prescribed), have the sign of D1-D0, be independent of noise_var after multiplication by it over six decades, and a per-symbol noise-variance tensor must reproduce the per-symbol scalar results. Differential schemes are probed on their normalised decision variable, pi/4-QPSK at even and odd positions.",
         note="Reference tables are the published (constellation, bit_patterns), tied to the mapper by C14.c. float32 tolerances: 1e-4 absolute on distances, 2e-3 relative on LLR ratios.",
         design="4/C06"),
+    "C10": dict(
+        technique="Hypothesis-generated parity-check graphs (sparse, cycle-free by union-find) and real LLR vectors against float64 references: codebook marginalisation, brute-force soft-ML, textbook flooding min-sum; exhaustive codewords x magnitudes for the clean clause",
+        text="Clean LLRs (|LLR| 0.5..50) of every codeword (k<=8) or seeded codewords are decoded by BP (iterations 1..20, exact/Taylor), min-sum (scaling/offset/normalized), Wagner and soft Reed-Muller on a fixed LDPC matrix, generated sparse H and catalogue codes, output shape (...,k); Wagner's output is compared with the maximum correlation over all even-weight words on generated tie-free real vectors; BP soft outputs equal brute-force bitwise posteriors on generated cycle-free graphs (inside the decoder's clipping range); min-sum soft outputs equal a textbook flooding min-sum and are homogeneous under input rescaling (offset 0, inside the +-500 clamp); a single weak wrong-sign LLR is corrected.",
+        note="Trusted base: kverif/ref/soft.py (self-checked). BP exactness demanded only when the reference keeps check messages < 7.0; min-sum offset compared only where scale*min > offset; generated H have no all-zero column and k >= 1.",
+        design="4/C10"),
     "C14": dict(
         technique="exhaustive pairwise examination of every published and mapper-induced constellation table; Gray utilities exhaustively below 2^16, Hypothesis-generated up to 2^60, plus an atheris (libFuzzer) campaign with the oracle inside the target",
         text="Every scheme's published table and the table induced by modulating every bit group are checked for 2^b distinct points, bijective labels, unit mean energy where requested/by definition, agreement with each other, and the Gray property on all nearest-neighbour pairs; binary_to_gray/gray_to_binary and their array forms are compared with n^(n>>1), inverted both ways and checked for unit Hamming distance of consecutive integers on all n<2^16 and generated n<2^60; a coverage-guided campaign looks for special-cased constants.",
         note="Nearest neighbours = pairs within 1e-4 relative of the minimum distance. atheris is installed from the offline wheelhouse into /verif/.deps by setup.sh; if unavailable the campaign is skipped and the evidence says so.",
         design="4/C14"),
+    "C15": dict(
+        technique="full enumeration of (LLR producer, LLR consumer) pairs over seeded/exhaustive short bit sequences; round-trip oracle bits -> modulate -> soft demodulate -> consumer -> bits",
+        text="Every soft demodulator (all schemes/options, noise variances 1e-3..1e3) and synthetic +-mag LLR streams are paired with every LLR consumer (10 thresholder configurations in LLR mode, ensemble, repetition soft-bit decoder, llr_to_bits, sign_to_bin, BP/min-sum/Wagner/SC/polar-BP/soft-RM decoders through a codeword); the consumer must reproduce the transmitted bits. LLRThresholder soft output equals sigmoid(-LLR) and is monotone; llr_to_bits(+x)=0, (-x)=1.",
+        note="Data-dependent thresholders are only judged where their threshold provably separates the two clusters (constant-magnitude streams, Otsu at bin resolution, Dynamic for |LLR|>=0.25); skipped cases are counted in the evidence. Decoders get LLRs clipped to +-30 with |LLR|>=0.05.",
+        design="4/C15"),
     "C18": dict(
         technique="exhaustive enumeration of small domains + Hypothesis-generated operands against an independent int-bitmask GF(2)[X]/GF(2^m) reference",
         text="Every clause of C18 (Euclidean division, gcd/Bezout, lcm, ring laws; field axioms, primitive order, inverse, power, trace, conjugates, minimal polynomial) is evaluated on all polynomial pairs of degree < 8, all field pairs for m <= 7 (thorough: <= 10), all triples for m <= 4 (thorough: 5), every element for m <= 8 and on Hypothesis-generated operands up to degree 200 / m = 16, and compared with a reference that shares no code with kaira. Exploration: exhaustive on the stated finite grids, sampling above them.",
